@@ -471,6 +471,11 @@ pub fn get_best_move_until_stop(
         })
         .unwrap_or(1);
 
+    // A cached deeper search must not make us search beyond the requested depth
+    let starting_depth = max_depth.map_or(starting_depth, |max_depth| {
+        starting_depth.min(max_depth.max(1))
+    });
+
     for depth in starting_depth.. {
         let Some((best_move, best_score, is_only_move)) =
             get_best_move_entry(game.clone(), continue_running, depth, table, &mut history)
@@ -503,7 +508,7 @@ pub fn get_best_move_until_stop(
         println!();
 
         // If mate can be forced, or there is only a single move available, stop searching
-        if max_depth.is_some_and(|d| d == depth)
+        if max_depth.is_some_and(|d| depth >= d)
             || is_only_move
             || best_score > Score::MAX - 1000
             || best_score < Score::MIN + 1000
